@@ -84,7 +84,14 @@ def run(ctx):
                    'ok paths=%d notes=%s ret=%s' % (len(d.ok_paths), d.notes, sb['locals'][0]['ty']), w, sn)
             if E is None:
                 continue
-            for p in d.ok_paths:
+            # a syntactic Ok path whose collected length constraints contradict each other (e.g. the `Equal` arm of a three-way comparison
+            # followed by a test the equal length cannot pass) is taken by no input and accepts nothing; at least one Ok path must remain
+            def _infeasible(p):
+                L0 = num.path_lengths(p, Sym('input'), P, kg)
+                return L0.values() == [] and not L0.unbounded and not L0.unknown
+            feasible = [p for p in d.ok_paths if not _infeasible(p)]
+            rep.ob('R10.0', '%s: some Ok path of the decoder is feasible' % name, bool(feasible), 'ok paths %d, all with contradictory length constraints' % len(d.ok_paths), w, sn)
+            for p in feasible:
                 L = num.path_lengths(p, Sym('input'), P, kg)
                 exact = L.values() == [E] and not L.unbounded and not L.unknown
                 n_exact += int(exact)
